@@ -139,7 +139,14 @@ func newGenericObjectSetController(
 		},
 	)
 
-	controller.teardownHandler = phasesReconciler
+	sliceLoadReconciler := newObjectSliceLoadReconciler(scheme, client, newObjectSlice)
+
+	// Objects living in ObjectSlices have to be inlined before teardown, just like before a reconcile,
+	// otherwise teardown and archival only see the (empty) inline part of every phase.
+	controller.teardownHandler = &sliceLoadingTeardownHandler{
+		sliceLoader: sliceLoadReconciler,
+		teardown:    phasesReconciler,
+	}
 
 	controller.reconciler = []reconciler{
 		&revisionReconciler{
@@ -147,11 +154,30 @@ func newGenericObjectSetController(
 			client:       client,
 			newObjectSet: newObjectSet,
 		},
-		newObjectSliceLoadReconciler(scheme, client, newObjectSlice),
+		sliceLoadReconciler,
 		phasesReconciler,
 	}
 
 	return controller
+}
+
+// sliceLoadingTeardownHandler loads all ObjectSlices referenced by the ObjectSet
+// into its phases, before handing the ObjectSet to the wrapped teardownHandler.
+type sliceLoadingTeardownHandler struct {
+	sliceLoader reconciler
+	teardown    teardownHandler
+}
+
+func (h *sliceLoadingTeardownHandler) Teardown(
+	ctx context.Context, objectSet adapters.ObjectSetAccessor,
+) (cleanupDone bool, err error) {
+	// Orphaned ObjectSets don't touch their objects, so there is nothing to load.
+	if !controllerutil.ContainsFinalizer(objectSet.ClientObject(), "orphan") {
+		if _, err := h.sliceLoader.Reconcile(ctx, objectSet); err != nil {
+			return false, fmt.Errorf("loading ObjectSlices for teardown: %w", err)
+		}
+	}
+	return h.teardown.Teardown(ctx, objectSet)
 }
 
 func (c *GenericObjectSetController) SetupWithManager(mgr ctrl.Manager) error {
